@@ -1021,6 +1021,8 @@ impl TensorChain {
             .store()
             .snapshot_bytes()
             .map_err(|e| ChainError::StorageError(e.to_string()))?;
+        #[cfg(neumann_verif)]
+        tensor_store::verif_hooks::yield_point("chain.commit.preimage");
 
         if let Err(e) = self.apply_operations_to_store(&merged_ops) {
             let _ = self.graph.store().restore_from_bytes(&snapshot);
@@ -1055,6 +1057,8 @@ impl TensorChain {
             .with_codes(quantized_codes)
             .with_state_root(state_root)
             .sign_and_build(&self.identity);
+        #[cfg(neumann_verif)]
+        tensor_store::verif_hooks::yield_point("chain.commit.built");
 
         match self.chain.append(block) {
             Ok(hash) => {
